@@ -8,6 +8,7 @@ import (
 	"github.com/failsafe-go/failsafe-go"
 	"github.com/failsafe-go/failsafe-go/common"
 	"github.com/failsafe-go/failsafe-go/internal"
+	"github.com/failsafe-go/failsafe-go/internal/verifhook"
 	"github.com/failsafe-go/failsafe-go/policy"
 )
 
@@ -29,7 +30,9 @@ func (e *executor[R]) Apply(innerFn func(failsafe.Execution[R]) *common.PolicyRe
 		var result atomic.Pointer[common.PolicyResult[R]]
 		timer := time.AfterFunc(e.timeLimit, func() {
 			timeoutResult := internal.FailureResult[R](ErrExceeded)
+			verifhook.Yield("timeout.timer.beforeCAS")
 			if result.CompareAndSwap(nil, timeoutResult) {
+				verifhook.Yield("timeout.timer.afterCAS")
 				if e.onTimeoutExceeded != nil {
 					e.onTimeoutExceeded(failsafe.ExecutionDoneEvent[R]{
 						ExecutionInfo: execInternal,
